@@ -51,7 +51,7 @@ def inventory(tree):
             globs.append(st.target.id)
     loops = {}
     for q, fn in _iter_funcs(tree):
-        its = [ast.unparse(st.iter) for st in ast.walk(fn) if isinstance(st, ast.For) and _literal_iter(st) is not None]
+        its = [ast.unparse(st.iter) + " ## " + _loop_fingerprint(st) for st in ast.walk(fn) if isinstance(st, ast.For) and _literal_iter(st) is not None]
         if its:
             loops[q] = its
     params = {}
@@ -61,6 +61,25 @@ def inventory(tree):
             a = fn.args
             params.setdefault(q, [x.arg for x in a.posonlyargs + a.args])
     return {"functions": sorted(set(funcs)), "globals": sorted(set(globs)), "literal_loops": loops, "private_params": params}
+
+
+def _loop_fingerprint(st):
+    """shape of a loop body that does not depend on the spelling of names (first-occurrence numbering)"""
+    import hashlib
+    body = copy.deepcopy(st.body)
+    num = {}
+    for b in [st.target] + body:
+        for n in ast.walk(b):
+            if isinstance(n, ast.Name):
+                num.setdefault(n.id, f"v{len(num)}")
+    txt = []
+    for b in body:
+        b = copy.deepcopy(b)
+        for n in ast.walk(b):
+            if isinstance(n, ast.Name):
+                n.id = num[n.id]
+        txt.append(ast.dump(b))
+    return hashlib.sha1("\n".join(txt).encode()).hexdigest()[:12]
 
 
 def _iter_funcs(tree, prefix=""):
@@ -133,6 +152,24 @@ def _stores(nodes):
 # constants
 
 
+def _scope_binding_counts(body):
+    """how often each name is bound in one scope (module or class body), at any nesting of if/for/try/with"""
+    counts = {}
+    todo = list(body)
+    while todo:
+        x = todo.pop()
+        if isinstance(x, (ast.FunctionDef, ast.AsyncFunctionDef, ast.ClassDef)):
+            counts[x.name] = counts.get(x.name, 0) + 1
+            continue
+        if isinstance(x, ast.Name) and isinstance(x.ctx, (ast.Store, ast.Del)):
+            counts[x.id] = counts.get(x.id, 0) + 1
+        if isinstance(x, ast.alias):
+            nm_ = (x.asname or x.name).split(".")[0]
+            counts[nm_] = counts.get(nm_, 0) + 1
+        todo.extend(ast.iter_child_nodes(x))
+    return counts
+
+
 def propagate_new_constants(tree, ref_globals):
     consts = {}
     counts = {}
@@ -142,7 +179,11 @@ def propagate_new_constants(tree, ref_globals):
             counts[nm] = counts.get(nm, 0) + 1
             if nm not in ref_globals and _is_literal(st.value):
                 consts[nm] = st.value
-    consts = {k: v for k, v in consts.items() if counts.get(k) == 1}
+    # the binding must be the only one in force: one store of the name in the whole module scope (also inside module-level
+    # if/for/try/with, augmented assignments, imports, defs) and no function declares it `global`
+    all_counts = _scope_binding_counts(tree.body)
+    declared_global = {nm_ for x in ast.walk(tree) if isinstance(x, ast.Global) for nm_ in x.names}
+    consts = {k: v for k, v in consts.items() if counts.get(k) == 1 and all_counts.get(k) == 1 and k not in declared_global}
     if not consts:
         return 0
     n = 0
@@ -249,6 +290,10 @@ def _unrollable(st):
     tnames = {n.id for n in ast.walk(st.target) if isinstance(n, ast.Name)}
     if tnames & _stores(st.body):
         return False
+    # the items are evaluated once, before the first iteration: the body must not change what they are built from
+    operands = {n.id for n in ast.walk(st.iter) if isinstance(n, ast.Name)} - {"enumerate"}
+    if operands and (operands & _stores(st.body) or any(_writes_through(b, operands) for b in st.body)):
+        return False
     return True
 
 
@@ -258,7 +303,14 @@ def unroll_new_literal_loops(tree, ref_loops):
         def _key(t):
             return t.strip("[]()")      # a list and a tuple with the same items are the same table
 
-        known = [_key(t) for t in ref_loops.get(q, [])]
+        known = [_key(t.split(" ## ")[0]) for t in ref_loops.get(q, [])]
+        # the loops the rules know must all be there unchanged (iterable and body shape); if one of them was edited, or another
+        # loop over the same table was added, nothing in this function is unrolled: the rules then see the loops as written
+        want = sorted(_key(t.split(" ## ")[0]) + " ## " + t.split(" ## ")[1] for t in ref_loops.get(q, []) if " ## " in t)
+        have = sorted(_key(ast.unparse(x.iter)) + " ## " + _loop_fingerprint(x) for x in ast.walk(fn)
+                      if isinstance(x, ast.For) and _literal_iter(x) is not None and _key(ast.unparse(x.iter)) in known)
+        if want and want != have:
+            continue
 
         def rewrite(block):
             nonlocal n
@@ -326,6 +378,13 @@ def _bind_call(fn, call, skip_self):
     return m
 
 
+def _rename(node, mapping):
+    for n in ast.walk(node):
+        if isinstance(n, ast.Name) and n.id in mapping:
+            n.id = mapping[n.id]
+    return node
+
+
 def _is_doc(st):
     return isinstance(st, ast.Expr) and isinstance(st.value, ast.Constant) and isinstance(st.value.value, str)
 
@@ -378,6 +437,17 @@ def inline_new_helpers(tree, ref_funcs):
            and not q.split(".")[-1].startswith("__") and q.count(".") <= 1}
     if not new:
         return 0
+    # the definition in force must be known: exactly one binding of the name in its scope, made unconditionally
+    mod_counts = _scope_binding_counts(tree.body)
+    declared_global = {nm_ for x in ast.walk(tree) if isinstance(x, ast.Global) for nm_ in x.names}
+
+    def unique_def(q, fn):
+        if "." not in q:
+            return any(x is fn for x in tree.body) and mod_counts.get(fn.name) == 1 and fn.name not in declared_global
+        cls = next((c for c in tree.body if isinstance(c, ast.ClassDef) and c.name == q.split(".")[0]), None)
+        return cls is not None and any(x is fn for x in cls.body) and _scope_binding_counts(cls.body).get(fn.name) == 1 \
+            and mod_counts.get(cls.name) == 1
+    new = {q: fn for q, fn in new.items() if unique_def(q, fn)}
     info = {}
     for q, fn in new.items():
         kind = _helper_kind(fn)
@@ -480,15 +550,18 @@ def inline_new_helpers(tree, ref_funcs):
                     if is_method:
                         m[_simple_params(fn)[0]] = k[1]
                     uid[0] += 1
-                    # parameters that the helper rebinds, and arguments that are not plain names, get a local of their own
+                    # the helper has a scope of its own: every name it binds (rebound parameters, locals) becomes a fresh local
+                    # of the caller; parameters that are only read are replaced by the arguments
                     stores = _stores(body)
                     pre = []
                     sub = {}
+                    fresh = {nm_: f"_h{uid[0]}_{nm_}" for nm_ in stores}
                     for p, a in m.items():
                         if p in stores:
-                            pre.append(ast.Assign(targets=[ast.Name(id=p, ctx=ast.Store())], value=copy.deepcopy(a)))
+                            pre.append(ast.Assign(targets=[ast.Name(id=fresh[p], ctx=ast.Store())], value=copy.deepcopy(a)))
                         else:
                             sub[p] = a
+                    body = [_rename(copy.deepcopy(b), fresh) for b in body]
                     new_stmts = list(pre)
                     ok = True
                     for b in body:
@@ -584,9 +657,111 @@ def _remove_def(tree, fn):
 # ---------------------------------------------------------------------------
 
 
-def inline_new_temps(tree, ref_mod):
+_WIDE_CTYPES = {"int", "long", "Py_ssize_t", "ssize_t", "int64", "np.int64_t", "double", "float64", "np.float64_t", "object", "bint"}
+
+
+def _ctype_of_expr(e, ctype_of_name):
+    """declared C type of an expression built from typed locals: a name, a fully indexed memoryview element, + - * of
+    operands of one type (integer literals adapt); None when unknown"""
+    if isinstance(e, ast.Name):
+        t = ctype_of_name(e.id).replace("const ", "").strip()
+        return t if t and "[" not in t else None
+    if isinstance(e, ast.Subscript) and isinstance(e.value, ast.Name):
+        t = ctype_of_name(e.value.id).replace("const ", "").strip()
+        if "[" in t and t.endswith("]"):
+            dims = t[t.index("[") + 1:-1].count(",") + 1
+            idx = e.slice.elts if isinstance(e.slice, ast.Tuple) else [e.slice]
+            if len(idx) == dims and not any(isinstance(i, ast.Slice) for i in idx):
+                return t[:t.index("[")].strip()
+        return None
+    if isinstance(e, ast.BinOp) and isinstance(e.op, (ast.Add, ast.Sub, ast.Mult)):
+        a, b = _ctype_of_expr(e.left, ctype_of_name), _ctype_of_expr(e.right, ctype_of_name)
+        lit = lambda x: isinstance(x, ast.Constant) and isinstance(x.value, int) and not isinstance(x.value, bool)
+        if lit(e.left):
+            a = b
+        if lit(e.right):
+            b = a
+        if a is not None and a == b and a not in ("char", "unsigned char", "short", "unsigned short", "uint8", "int8", "uint16", "int16", "float", "float32"):
+            return a
+    return None
+
+
+def _direct_use(st, nm):
+    """is every read of `nm` inside statement `st` evaluated where `st` itself starts (not inside a body that runs
+    conditionally, repeatedly or under an exception handler)"""
+    def reads(node):
+        return any(isinstance(x, ast.Name) and x.id == nm and isinstance(x.ctx, ast.Load) for x in ast.walk(node))
+    # a body may read it again when the head of the statement (evaluated unconditionally, first) reads it too: the
+    # expression was then already evaluated there without fault (the caller checks that the statement does not write its operands)
+    if isinstance(st, ast.If):
+        return reads(st.test) or not any(reads(b) for b in st.body + st.orelse)
+    if isinstance(st, (ast.For, ast.AsyncFor)):
+        return reads(st.iter) or not any(reads(b) for b in st.body + st.orelse)
+    if isinstance(st, (ast.With, ast.AsyncWith)):
+        return any(reads(i.context_expr) for i in st.items) or not any(reads(b) for b in st.body)
+    if isinstance(st, (ast.While, ast.Try, ast.Match)) or hasattr(ast, "TryStar") and isinstance(st, ast.TryStar):
+        return not reads(st)
+    if isinstance(st, (ast.FunctionDef, ast.AsyncFunctionDef, ast.ClassDef)):
+        return not reads(st)
+    return True
+
+
+def _may_fault(value):
+    """can evaluating the expression read memory / object state or raise (so that WHERE it is evaluated matters)"""
+    for x in ast.walk(value):
+        if isinstance(x, ast.Attribute):
+            # a member of an enumeration / a named constant of a class or module (`TraceDirectionAffine.MATCH_TO_MATCH`, `np.int32`)
+            b = x
+            while isinstance(b, ast.Attribute):
+                b = b.value
+            if isinstance(b, ast.Name) and (b.id in ("np", "numpy", "math", "sys") or b.id[:1].isupper() and x.attr.isupper()):
+                continue
+            return True
+        if isinstance(x, ast.Call) and isinstance(x.func, ast.Name) and x.func.id == "slice" and not x.keywords:
+            continue        # building a slice object cannot fail
+        if isinstance(x, (ast.Subscript, ast.Starred, ast.Call, ast.Await)):
+            return True
+        if isinstance(x, ast.BinOp) and isinstance(x.op, (ast.Div, ast.FloorDiv, ast.Mod, ast.Pow, ast.LShift, ast.RShift)):
+            return True
+    return False
+
+
+def _writes_through(st, operands):
+    """does the statement (at any depth) change an object named by `operands` in place, or hand it to a call that could"""
+    for x in ast.walk(st):
+        if isinstance(x, ast.Call):
+            touched = set()
+            for a in list(x.args) + [k.value for k in x.keywords]:
+                b = a.value if isinstance(a, ast.Starred) else a
+                while isinstance(b, (ast.Subscript, ast.Attribute)):
+                    b = b.value
+                if isinstance(b, ast.UnaryOp) and isinstance(b.op, ast.UAdd) and isinstance(b.operand, ast.Name):
+                    b = b.operand          # lowered pyx `&x`
+                if isinstance(b, ast.Name):
+                    touched.add(b.id)
+            if isinstance(x.func, ast.Attribute):
+                b = x.func.value
+                while isinstance(b, (ast.Subscript, ast.Attribute)):
+                    b = b.value
+                if isinstance(b, ast.Name):
+                    touched.add(b.id)
+            if touched & operands:
+                return True
+        elif isinstance(x, (ast.Assign, ast.AugAssign, ast.Delete, ast.AnnAssign)):
+            for t in (x.targets if isinstance(x, (ast.Assign, ast.Delete)) else [x.target]):
+                b = t
+                while isinstance(b, (ast.Subscript, ast.Attribute)):
+                    b = b.value
+                if isinstance(b, ast.Name) and b.id in operands and b is not t:
+                    return True
+    return False
+
+
+def inline_new_temps(tree, ref_mod, ctype=None):
     """undo 'introduce temporary': a local that the reference function did not have, bound exactly once by a plain
-    assignment whose operands are not rebound afterwards, is replaced by its defining expression"""
+    assignment whose operands are not rebound afterwards, is replaced by its defining expression.  The expression may
+    only move where it is evaluated under the same conditions and sees the same objects: see the comments below.
+    `ctype(qualname, name)` gives the declared C type of a local in lowered Cython ('' if none)."""
     from . import localnames
     n_done = 0
     for q, fn in localnames._numbered(tree):
@@ -657,31 +832,45 @@ def inline_new_temps(tree, ref_mod):
             has_call = any(isinstance(x, ast.Await) or (isinstance(x, ast.Call) and not (
                 (isinstance(x.func, ast.Name) and x.func.id in _PURE_BUILTINS) or ast.unparse(x.func) in _PURE_DOTTED))
                 for x in ast.walk(asg.value))
-            has_deref = any(isinstance(x, (ast.Subscript, ast.Attribute, ast.Starred)) for x in ast.walk(asg.value))
             use_stmts = [k for k, st in enumerate(region) if any(isinstance(x, ast.Name) and x.id == nm and isinstance(x.ctx, ast.Load)
                                                                   for x in ast.walk(st))]
             if has_call:
                 # a call may have effects: it may only move into the statement that follows it directly, once
                 if use_stmts != [0] or n_uses != 1 or isinstance(region[0], (ast.For, ast.While, ast.If, ast.With, ast.Try)):
                     n_uses = 0
-            elif has_deref and use_stmts:
-                # reads of object state: nothing between the definition and the last use may change the objects involved
-                between = region[:use_stmts[-1]]
-                for st in between:
-                    for x in ast.walk(st):
-                        if isinstance(x, ast.Call):
-                            touched = {y.id for a in list(x.args) + [k.value for k in x.keywords] for y in ast.walk(a) if isinstance(y, ast.Name)}
-                            if isinstance(x.func, ast.Attribute):
-                                touched |= {y.id for y in ast.walk(x.func.value) if isinstance(y, ast.Name)}
-                            if touched & operands:
-                                n_uses = 0
-                        elif isinstance(x, (ast.Assign, ast.AugAssign, ast.Delete)):
-                            for t in (x.targets if isinstance(x, (ast.Assign, ast.Delete)) else [x.target]):
-                                b = t
-                                while isinstance(b, (ast.Subscript, ast.Attribute)):
-                                    b = b.value
-                                if isinstance(b, ast.Name) and b.id in operands and b is not t:
-                                    n_uses = 0
+            if use_stmts and _may_fault(asg.value):
+                # an expression that reads memory or can raise must stay in its control region: it has to be evaluated
+                # unconditionally by a statement of the defining block (where that statement starts, not inside an if / loop /
+                # try body), and nothing before that statement may leave the block; further uses may then sit anywhere
+                direct = [k for k in use_stmts if _direct_use(region[k], nm)]
+                if not direct:
+                    n_uses = 0
+                elif direct[0] != use_stmts[0] or any(not _direct_use(region[k], nm) for k in use_stmts):
+                    if any(isinstance(x, (ast.Return, ast.Raise, ast.Break, ast.Continue)) for st in region[:direct[0]] for x in ast.walk(st)):
+                        n_uses = 0
+            if use_stmts:
+                # nothing between the definition and the last use may change, in place, an object the expression is built from
+                # (`v[..] *= -1`, `xs.sort()`, `f(v)`) - for plain arithmetic on names as well: the names may be arrays
+                local_operands = operands & (set(stores) | set(params))
+                for st in region[:use_stmts[-1]]:
+                    if _writes_through(st, local_operands):
+                        n_uses = 0
+                # a compound statement that uses it may write before it reads
+                for k in use_stmts:
+                    st_ = region[k]
+                    if isinstance(st_, (ast.If, ast.For, ast.While, ast.With, ast.Try)):
+                        inner = [b for fld in ("body", "orelse", "finalbody") for b in getattr(st_, fld, [])] + \
+                                [b for h in getattr(st_, "handlers", []) for b in h.body]
+                        reads_inside = any(isinstance(x, ast.Name) and x.id == nm and isinstance(x.ctx, ast.Load) for b in inner for x in ast.walk(b))
+                        if (reads_inside or isinstance(st_, ast.While)) and _writes_through(st_, local_operands):
+                            n_uses = 0
+            # lowered Cython: a declared C type converts on assignment; only wide types are conversion-free for what the
+            # repository computes (a `char`/`uint8`/`float32` temporary narrows or changes signedness)
+            if ctype is not None:
+                scope = q.split("#")[0]
+                ct = ctype(scope, nm).replace("const ", "").strip()
+                if ct and ct not in _WIDE_CTYPES and _ctype_of_expr(asg.value, lambda n_: ctype(scope, n_)) != ct:
+                    n_uses = 0
             if later_store or in_loop or uses_before or nm in operands or n_uses == 0:
                 cands.pop(nm)
         if not cands:
@@ -749,7 +938,11 @@ class _Aug(ast.NodeTransformer):
         if len(n.targets) == 1 and isinstance(n.value, ast.BinOp) and isinstance(n.targets[0], (ast.Name, ast.Subscript)):
             t = n.targets[0]
             if ast.dump(_as_load(t)) == ast.dump(n.value.left):
-                return ast.copy_location(ast.AugAssign(target=t, op=n.value.op, value=n.value.right), n)
+                new = ast.copy_location(ast.AugAssign(target=t, op=n.value.op, value=n.value.right), n)
+                # one spelling for the rules, but the difference is kept: `x = x op e` binds a NEW object to the name, a written
+                # `x op= e` changes the object in place (visible to every other holder of an array / list)
+                new._rebind = isinstance(t, ast.Name)
+                return new
         return n
 
 
